@@ -480,6 +480,19 @@ func closure(tree interface{}) []Mut {
 				}
 			}
 
+			// ... or whose inline content decodes to a JSON scalar / an unexpected shape
+			if _, ok := t["data"].(map[string]interface{}); ok {
+				for _, js := range []string{"null", "7", "[null]", "{}", "\"x\""} {
+					c := make(map[string]interface{}, len(t))
+					for kk, vv := range t {
+						c[kk] = vv
+					}
+
+					c["data"] = map[string]interface{}{"base64": base64.StdEncoding.EncodeToString([]byte(js))}
+					add(p, "attach-b64-"+js, c)
+				}
+			}
+
 			// DIDComm V1 / V2 member aliases (@id / id, @type / type): the plain name keeps the value while the
 			// decorated one changes type
 			for _, k := range sortedKeys(t) {
